@@ -6,7 +6,21 @@ from props.base import to_request, corpus_for  # noqa: F401
 
 ID = 'C04'
 LEAN_MODULES = ['PybtexModel.Props.C04']
-THEOREMS = {}
+THEOREMS = {
+    'C04_matches_spec': 'the model of Person._parse_string equals the BibTeX rule (Spec.split) for EVERY non-empty string whose case-deciding tokens scan within the nesting limit or start with a capital',
+    'C04_matches_spec_of_scan': 'the same under the plain hypothesis that every case-deciding token scans within the nesting limit',
+    'C04_matches_rule_any': 'for every string, a successful parse is the rule\'s split with "is_von_name answers yes" as the lower-case test (no hypothesis)',
+    'C04_matches_spec_neg': 'witness a{101 nested braces} B: the scan hypothesis cannot be dropped for tokens starting with a lower-case letter (is_von_name answers from the first character, the rule gives an over-nested token no case)',
+    'C04_case_of_token': "each token's case is decided by its first brace-level-0 letter or special character: is_von_name = Spec.isLow on every non-empty token with a decidable case",
+    'C04_total': 'parsing succeeds for every non-empty string, reporting too many commas exactly when there are more than three comma parts; the only exception is "too many nested braces" from a case-deciding token that does not scan; never IndexError / ValueError',
+    'C04_total_person': 'Person(string, first, middle, prelast, last, lineage) for ANY six strings returns a person or raises "too many nested braces" caused by a token of the stripped string',
+    'C04_tokens_nonempty': 'tokens of the tokeniser are never empty and a non-empty string has at least one comma part (why string[0] and the ValueError branch are unreachable)',
+    'C04_tokens_preserved': 'no token is lost, duplicated or reordered: first++middle++prelast++last = tokens(s) without commas; prelast++last / lineage / first++middle = tokens of the first / second / last comma part (extra parts joined by blanks); first_names is the first token of First',
+    'C04_von_longest': 'the von part is the longest run ending in a lower-case token that still leaves a last name: boundary = Spec.vonLast, no lower-case token left in last[:-1], von ends lower-case, last non-empty, a lower-case token before the final one forces von',
+    'C04_case_rule': 'First von Last form: no token of First is lower-case, von (when present) starts with the first lower-case token, a lower-case token before the final token forces a von part',
+    'C04_parts_same_tokenisation': 'explicit part arguments are tokenised by the same tokeniser and appended to the parts parsed from the string',
+    'C04_braces_atomic': 'every returned token is a non-empty token of the tokeniser applied to the name, one of its first two comma parts or the blank-joined rest (brace atomicity reduces to C12\'s tokeniser theorems)',
+}
 RULE = ('all token shapes up to the tier token count over eight token classes {Capitalised, lowercase, braced, special-char upper, '
         'special-char lower, caseless, hyphenated, tie-joined} x 0..3 commas at every position x separators {space, ~, two spaces, \\ }; '
         'every string up to the tier length over {a B { } \\ , ~ space - 1} (totality); seeded noisy long names; the table of '
@@ -179,5 +193,17 @@ def gen_cases(tier, rng, info):
     return cases
 
 
-LEVEL_TEXT = 'filled when the proofs are registered'
-LEVEL_NOTE = ''
+LEVEL_TEXT = ('Machine-checked proofs (Lean 4) about the function-by-function model of Person.__init__ / Person._parse_string: for EVERY '
+              'string (unbounded length) the model equals the declarative BibTeX rule Spec.split whenever the case-deciding tokens scan within '
+              'the 100-level nesting limit (C04_matches_spec); it never raises IndexError/ValueError, its only error is the nesting error, '
+              'and the too-many-commas report is exact (C04_total, C04_total_person); tokens are preserved in order in all comma forms '
+              '(C04_tokens_preserved); the von/Last boundary and the case rule are characterised on the model output (C04_von_longest, '
+              'C04_case_rule, C04_case_of_token); explicit parts use the same tokeniser (C04_parts_same_tokenisation); brace atomicity is '
+              'reduced to the tokeniser (C04_braces_atomic, proved for the tokeniser under C12). The model is tied to the code by the '
+              'differential check (exhaustive token-shape scope + random + the parse_name_test table) and the oracle evaluating the spec.')
+LEVEL_NOTE = ('Trusted: Lean kernel; axioms propext/Classical.choice/Quot.sound only; the hand-written model (Model/Names.lean, '
+              'Model/TeXString.lean) corresponds to pybtex only as far as the differential check explores; letters are ASCII in the model; '
+              'fidelity of Spec/Names.lean to BibTeX itself is by reading (no binary to compare with). parseName is _parse_string on the '
+              'stripped non-empty argument (find_pos after repair #3). Beyond the nesting limit model and rule differ for a token that starts '
+              'with a lower-case letter (C04_matches_spec_neg: the code answers from the first character, the rule assigns no case); '
+              'concrete witnesses are checked by kernel evaluation (decide +kernel).')
